@@ -689,10 +689,15 @@ Ltac trunc3 :=
   end.
 Lemma g_tc_account : guarded m_tc_account (glit k_Account).
 Proof. exact (guarded_lit _ _). Qed.
-Lemma g_post : guarded m_post (glit k_Trade).
+Lemma g_post : guarded m_post (glit k_Trade ++ [is_space; fun c => is_space c || (c =? 68)]).
 Proof.
-  intros s H. unfold m_post. cbn [lits_sp1]. unfold lit at 1. rewrite prefix_sat_glit in H. unfold starts_with in H.
-  destruct (strip_prefix k_Trade s); [discriminate|reflexivity].
+  intros s H. rewrite prefix_sat_app_lit in H. unfold m_post. cbn [lits_sp1]. unfold lit at 1.
+  destruct (strip_prefix k_Trade s) as [r|]; [|reflexivity]. cbn [obind].
+  destruct r as [|c1 r]; [reflexivity|]. cbn [prefix_sat sp1] in *.
+  destruct (is_space c1); [|reflexivity]. cbn [andb obind] in *.
+  destruct r as [|c2 r]; [reflexivity|]. cbn [prefix_sat] in H. rewrite andb_true_r in H.
+  apply orb_false_iff in H. destruct H as [H1 H2]. cbn [skip_spaces]. rewrite H1.
+  unfold lit, k_Date. cbn [strip_prefix]. rewrite N.eqb_sym in H2. rewrite H2. reflexivity.
 Qed.
 Lemma g_isin : guarded m_isin (glit k_ISIN_c).
 Proof. exact (guarded_lit _ _). Qed.
@@ -812,3 +817,222 @@ Proof.
   destruct (find_last m_commission (32 :: REST)) as [[v r']|]; cbn [fst snd];
     destruct (find_last m_tx_fee _) as [[v2 r2']|]; reflexivity.
 Qed.
+
+Lemma frac_len_digits l : digits l -> frac_len l = 0%nat.
+Proof.
+  unfold digits. induction l as [|c l IH]; intros H; [reflexivity|].
+  cbn [forallb] in H. apply andb_true_iff in H. destruct H as [Hc Hl].
+  cbn [frac_len]. rewrite (digit_not_dot c Hc). apply IH. exact Hl.
+Qed.
+Lemma parse_large_int q : digits q -> q <> [] -> (length q <= 28)%nat -> parse_large q = Ok (dval q).
+Proof.
+  intros Hq Hn Hl. unfold parse_large, dval. rewrite strip_commas_digits by assumption.
+  unfold plain_num_ok, mantissa, count_dots. rewrite filter_digits, filter_dot_digits, frac_len_digits by assumption.
+  assert (H1 : forallb (fun c => is_digit c || is_dot c) q = true).
+  { apply (forallb_imp is_digit); [intros x Hx; rewrite Hx; reflexivity|exact Hq]. }
+  rewrite H1. destruct q as [|c q]; [congruence|]. cbn [length Nat.eqb negb andb Nat.leb].
+  assert (H2 : (Z.of_N (digits_value (c :: q)) <=? max_mant)%Z = true) by (apply Z.leb_le, mantissa_bound; assumption).
+  rewrite H2. reflexivity.
+Qed.
+
+Lemma m_commission_hit a b X : digits a -> digits b -> a <> [] -> b <> [] ->
+  m_commission (post_com_pre ++ a ++ 46 :: b ++ 10 :: X) = Some (a ++ 46 :: b, 10 :: X).
+Proof.
+  intros. unfold m_commission.
+  change (lit k_Commission (post_com_pre ++ a ++ 46 :: b ++ 10 :: X)) with (Some (32 :: 36 :: a ++ 46 :: b ++ 10 :: X)).
+  cbn [obind]. rewrite sp1_sp. cbn [obind].
+  change (skip_spaces (36 :: a ++ 46 :: b ++ 10 :: X)) with (36 :: a ++ 46 :: b ++ 10 :: X).
+  cbn [chr N.eqb Pos.eqb obind]. apply dd_hit; auto. reflexivity.
+Qed.
+Definition post_fee_key : text := Eval vm_compute in txt "Transaction Fee $"%string.
+Lemma m_tx_fee_hit a b X : digits a -> digits b -> a <> [] -> b <> [] ->
+  m_tx_fee (post_fee_key ++ a ++ 46 :: b ++ 10 :: X) = Some (a ++ 46 :: b, 10 :: X).
+Proof.
+  intros. unfold m_tx_fee.
+  change (lits_sp1 [k_Transaction; k_Fee] (post_fee_key ++ a ++ 46 :: b ++ 10 :: X))
+    with (Some (skip_spaces (36 :: a ++ 46 :: b ++ 10 :: X))).
+  change (skip_spaces (36 :: a ++ 46 :: b ++ 10 :: X)) with (36 :: a ++ 46 :: b ++ 10 :: X).
+  cbn [chr N.eqb Pos.eqb obind]. apply dd_hit; auto. reflexivity.
+Qed.
+Lemma m_isin_nil : m_isin [] = None. Proof. reflexivity. Qed.
+Lemma m_commission_nil : m_commission [] = None. Proof. reflexivity. Qed.
+Lemma m_tx_fee_nil : m_tx_fee [] = None. Proof. reflexivity. Qed.
+
+Definition comseg (o : option (text * text)) : list seg :=
+  match o with Some (a, b) => [SL post_com_pre] ++ decseg a b ++ [SL nl] | None => [] end.
+Definition feeseg (o : option (text * text)) : list seg :=
+  match o with Some (a, b) => [SL post_fee_pre] ++ decseg a b ++ [SL nl] | None => [] end.
+Definition odec_ok (o : option (text * text)) : Prop :=
+  match o with Some (a, b) => decparts a b | None => True end.
+Definition odec_text (o : option (text * text)) : option text :=
+  match o with Some (a, b) => Some (a ++ 46 :: b) | None => None end.
+
+Section POST.
+Variables acct m1 d1 y1 m2 d2 y2 qty pa pb ty sym : text.
+Hypothesis Hacct : acct <> [] /\ forallb is_acct acct = true.
+Hypothesis Htd : digits m1 /\ digits d1 /\ digits y1 /\ m1 <> [] /\ d1 <> [] /\ y1 <> [].
+Hypothesis Hsd : digits m2 /\ digits d2 /\ digits y2 /\ m2 <> [] /\ d2 <> [] /\ y2 <> [].
+Hypothesis Hqty : digits qty /\ qty <> [].
+Hypothesis Hp : decparts pa pb.
+Hypothesis Hty : ty <> [] /\ forallb is_typec ty = true.
+Hypothesis Hty2 : (2 <= length ty)%nat /\ hd_in nonspace ty = true /\ hd_in nonspace (rev ty) = true.
+Hypothesis Hsym : sym <> [] /\ forallb is_updot sym = true.
+
+Definition post_tail (st : bool) (ocom ofee : option (text * text)) : list seg :=
+  [SL (sty st post0_8 post1_8)] ++ comseg ocom ++ feeseg ofee ++ [SL (sty st post0_10 post1_10)].
+Definition post_doc (st : bool) (ocom ofee : option (text * text)) : list seg :=
+  [SL (sty st post0_0 post1_0); SF c_acct acct; SL (sty st post0_1 post1_1)] ++ dateseg 47 m1 d1 y1
+  ++ [SL (sty st post0_2 post1_2)] ++ dateseg 47 m2 d2 y2
+  ++ [SL (sty st post0_3 post1_3); SF c_digit qty; SL (sty st post0_4 post1_4)] ++ decseg pa pb
+  ++ [SL (sty st post0_5 post1_5); SF c_type ty; SL (sty st post0_6 post1_6); SF c_updot sym;
+      SL (sty st post0_7 post1_7); SF c_updot sym] ++ post_tail st ocom ofee.
+
+Lemma post_doc_ok st ocom ofee (Hcom : odec_ok ocom) (Hfee : odec_ok ofee) : Forall seg_ok (post_doc st ocom ofee).
+Proof.
+  destruct Hacct, Htd as (? & ? & ? & ? & ? & ?), Hsd as (? & ? & ? & ? & ? & ?), Hqty, Hty, Hsym. dsplit Hp.
+  unfold post_doc, post_tail, comseg, feeseg, decseg, dateseg.
+  destruct ocom as [[ca cb]|], ofee as [[fa fb]|]; cbn [odec_ok] in Hcom, Hfee;
+    try dsplit Hcom; try dsplit Hfee; cbn [app]; repeat constructor; auto.
+Qed.
+Lemma post_tail_ok st ocom ofee (Hcom : odec_ok ocom) (Hfee : odec_ok ofee) : Forall seg_ok (post_tail st ocom ofee).
+Proof.
+  pose proof (post_doc_ok st ocom ofee Hcom Hfee) as H. unfold post_doc in H.
+  do 7 (apply Forall_app in H; destruct H as [_ H]). exact H.
+Qed.
+
+Lemma post_account st ocom ofee (Hcom : odec_ok ocom) (Hfee : odec_ok ofee) :
+  exists rest, get1 m_tc_account (flat (post_doc st ocom ofee)) = Ok (acct, rest).
+Proof.
+  destruct Hacct as [Hn Ha]. apply get1_of_fst.
+  assert (Hns : forallb nonspace acct = true) by (apply (forallb_imp is_acct); [exact acct_nonspace|exact Ha]).
+  assert (T : forall b, Forall seg_ok (post_doc b ocom ofee)) by (intro; apply post_doc_ok; assumption).
+  destruct st; destruct ocom as [[ca cb]|], ofee as [[fa fb]|];
+  (match goal with
+   | |- context [post_doc ?b _ _] => seek_with g_tc_account (T b)
+   end; trunc3; erewrite find_hit; cycle 1;
+   [ unfold m_tc_account, k_Account, k_Number_c; cbn [seg_text app lit strip_prefix N.eqb Pos.eqb obind];
+     rewrite sp1_sp; cbn [obind]; rewrite skip_spaces_nonspace by reflexivity;
+     cbn [lit strip_prefix N.eqb Pos.eqb obind];
+     rewrite skip_sp_nonspace_fld by auto; rewrite run1_all by (auto; reflexivity);
+     cbn [obind one_sp]; reflexivity
+   | reflexivity ]).
+Qed.
+
+Section WithOpts.
+Variables ocom ofee : option (text * text).
+Hypothesis Hcom : odec_ok ocom.
+Hypothesis Hfee : odec_ok ofee.
+
+Lemma post_no_isin st :
+  find_last m_isin (flat ([SL post_sin; SF c_updot sym] ++ post_tail st ocom ofee)) = None.
+Proof.
+  assert (Hok : forall b, Forall seg_ok ([SL post_sin; SF c_updot sym] ++ post_tail b ocom ofee)).
+  { intro b. apply Forall_app. split; [repeat constructor; apply Hsym|apply post_tail_ok; assumption]. }
+  destruct st; destruct ocom as [[ca cb]|], ofee as [[fa fb]|];
+    (apply (find_last_none m_isin _ g_isin m_isin_nil); [apply Hok|vm_compute; reflexivity]).
+Qed.
+
+(* the optional tails *)
+Lemma post_comm st :
+  comm_of (flat (post_tail st ocom ofee))
+  = match ocom with
+    | Some (a, b) => (Some (a ++ 46 :: b), 10 :: flat (feeseg ofee ++ [SL (sty st post0_10 post1_10)]))
+    | None => (None, flat (post_tail st ocom ofee))
+    end.
+Proof.
+  unfold comm_of. destruct ocom as [[ca cb]|].
+  - assert (E : find_last m_commission (flat (post_tail st (Some (ca, cb)) ofee))
+                = Some (ca ++ 46 :: cb, 10 :: flat (feeseg ofee ++ [SL (sty st post0_10 post1_10)]))); [|rewrite E; reflexivity].
+    cbn [odec_ok] in Hcom. dsplit Hcom.
+    assert (Hok : forall b, Forall seg_ok ([SL (tl post_com_pre)] ++ decseg ca cb ++ [SL nl] ++ feeseg ofee ++ [SL (sty b post0_10 post1_10)])).
+    { intro b. pose proof (post_tail_ok b (Some (ca, cb)) ofee) as P. unfold post_tail, comseg in P.
+      apply Forall_app. split; [repeat constructor|].
+      specialize (P (conj H (conj H0 (conj H1 (conj H2 H3)))) Hfee). apply Forall_app in P. destruct P as [_ P].
+      rewrite <- !app_assoc in P. apply Forall_app in P. destruct P as [_ P]. exact P. }
+    unfold post_tail, comseg. cbn [app flat seg_text]. apply find_last_app_some.
+    match goal with |- find_last _ ?X = _ =>
+      replace X with (67 :: flat ([SL (tl post_com_pre)] ++ decseg ca cb ++ [SL nl] ++ feeseg ofee ++ [SL (sty st post0_10 post1_10)]))
+        by (rewrite !flat_app; cbn [flat seg_text decseg app]; rewrite <- ?app_assoc; reflexivity)
+    end.
+    rewrite find_last_cons.
+    + assert (ET : 67 :: flat ([SL (tl post_com_pre)] ++ decseg ca cb ++ [SL nl] ++ feeseg ofee ++ [SL (sty st post0_10 post1_10)])
+                   = post_com_pre ++ ca ++ 46 :: cb ++ 10 :: flat (feeseg ofee ++ [SL (sty st post0_10 post1_10)])) by reflexivity.
+      rewrite ET. exact (m_commission_hit ca cb _ H H0 H1 H2).
+    + destruct st; destruct ofee as [[fa fb]|];
+        (apply (find_last_none m_commission _ g_commission m_commission_nil); [apply Hok|vm_compute; reflexivity]).
+  - assert (E : find_last m_commission (flat (post_tail st None ofee)) = None); [|rewrite E; reflexivity].
+    destruct st; destruct ofee as [[fa fb]|];
+      (apply (find_last_none m_commission _ g_commission m_commission_nil); [apply post_tail_ok; [exact I|assumption]|vm_compute; reflexivity]).
+Qed.
+
+Definition post_fee_head : text := Eval vm_compute in txt "Supplemental
+"%string.
+
+Lemma post_fee_after_comm st :
+  fee_of (10 :: flat (feeseg ofee ++ [SL (sty st post0_10 post1_10)])) = odec_text ofee.
+Proof.
+  unfold fee_of. destruct ofee as [[fa fb]|]; cbn [odec_text].
+  - cbn [odec_ok] in Hfee. dsplit Hfee.
+    assert (E : find_last m_tx_fee (10 :: flat (feeseg (Some (fa, fb)) ++ [SL (sty st post0_10 post1_10)]))
+                = Some (fa ++ 46 :: fb, 10 :: sty st post0_10 post1_10)); [|rewrite E; reflexivity].
+    match goal with |- find_last _ ?X = _ =>
+      replace X with ((10 :: post_fee_head) ++ 84 :: flat ([SL (tl post_fee_key)] ++ decseg fa fb ++ [SL nl; SL (sty st post0_10 post1_10)]))
+        by reflexivity
+    end.
+    apply find_last_app_some. rewrite find_last_cons.
+    + assert (ET : 84 :: flat ([SL (tl post_fee_key)] ++ decseg fa fb ++ [SL nl; SL (sty st post0_10 post1_10)])
+                   = post_fee_key ++ fa ++ 46 :: fb ++ 10 :: (sty st post0_10 post1_10 ++ [])) by reflexivity.
+      rewrite ET, app_nil_r. exact (m_tx_fee_hit fa fb _ H H0 H1 H2).
+    + destruct st; (apply (find_last_none m_tx_fee _ g_tx_fee m_tx_fee_nil); [repeat constructor; auto|vm_compute; reflexivity]).
+  - assert (E : find_last m_tx_fee (10 :: flat (feeseg None ++ [SL (sty st post0_10 post1_10)])) = None); [|rewrite E; reflexivity].
+    change (10 :: flat (feeseg None ++ [SL (sty st post0_10 post1_10)])) with (flat [SL nl; SL (sty st post0_10 post1_10)]).
+    destruct st; (apply (find_last_none m_tx_fee _ g_tx_fee m_tx_fee_nil); [repeat constructor|vm_compute; reflexivity]).
+Qed.
+
+Lemma post_fee_no_comm st : ocom = None -> fee_of (flat (post_tail st ocom ofee)) = odec_text ofee.
+Proof.
+  intros ->. unfold fee_of. destruct ofee as [[fa fb]|]; cbn [odec_text].
+  - cbn [odec_ok] in Hfee. dsplit Hfee.
+    assert (E : find_last m_tx_fee (flat (post_tail st None (Some (fa, fb))))
+                = Some (fa ++ 46 :: fb, 10 :: sty st post0_10 post1_10)); [|rewrite E; reflexivity].
+    match goal with |- find_last _ ?X = _ =>
+      replace X with (sty st post0_8 post1_8 ++ post_fee_head ++ 84 :: flat ([SL (tl post_fee_key)] ++ decseg fa fb ++ [SL nl; SL (sty st post0_10 post1_10)]))
+        by reflexivity
+    end.
+    apply find_last_app_some, find_last_app_some. rewrite find_last_cons.
+    + assert (ET : 84 :: flat ([SL (tl post_fee_key)] ++ decseg fa fb ++ [SL nl; SL (sty st post0_10 post1_10)])
+                   = post_fee_key ++ fa ++ 46 :: fb ++ 10 :: (sty st post0_10 post1_10 ++ [])) by reflexivity.
+      rewrite ET, app_nil_r. exact (m_tx_fee_hit fa fb _ H H0 H1 H2).
+    + destruct st; (apply (find_last_none m_tx_fee _ g_tx_fee m_tx_fee_nil); [repeat constructor; auto|vm_compute; reflexivity]).
+  - assert (E : find_last m_tx_fee (flat (post_tail st None None)) = None); [|rewrite E; reflexivity].
+    destruct st; (apply (find_last_none m_tx_fee _ g_tx_fee m_tx_fee_nil); [repeat constructor|vm_compute; reflexivity]).
+Qed.
+
+Lemma post_find st :
+  find m_post (flat (post_doc st ocom ofee))
+  = Some {| cp_td := (m1, d1, y1); cp_sd := (m2, d2, y2); cp_sym := sym; cp_act := ty; cp_n := qty;
+            cp_price := pa ++ 46 :: pb; cp_comm := odec_text ocom; cp_fee := odec_text ofee |}.
+Proof.
+  destruct Htd as (? & ? & ? & ? & ? & ?), Hsd as (? & ? & ? & ? & ? & ?), Hqty, Hty, Hsym, Hty2 as (? & ? & ?).
+  assert (T : forall b, Forall seg_ok (post_doc b ocom ofee)) by (intro; apply post_doc_ok; assumption).
+  pose proof (post_no_isin st) as HI. pose proof (post_comm st) as HC.
+  pose proof (post_fee_after_comm st) as HF1. pose proof (post_fee_no_comm st) as HF2.
+  assert (EV : m_post (post_hdr ++ m1 ++ 47 :: d1 ++ 47 :: y1 ++ 32 :: m2 ++ 47 :: d2 ++ 47 :: y2 ++ 32 :: qty ++ 32 :: pa ++ 46 :: pb
+          ++ post0_5 ++ ty ++ post0_6 ++ sym ++ post0_7 ++ sym ++ 32 :: tl (flat (post_tail st ocom ofee)))
+        = Some {| cp_td := (m1, d1, y1); cp_sd := (m2, d2, y2); cp_sym := sym; cp_act := ty; cp_n := qty;
+            cp_price := pa ++ 46 :: pb; cp_comm := odec_text ocom; cp_fee := odec_text ofee |}).
+  { rewrite m_post_eval; auto.
+    - assert (E32 : 32 :: tl (flat (post_tail st ocom ofee)) = flat (post_tail st ocom ofee)) by (destruct st; reflexivity).
+      rewrite E32, HC. destruct ocom as [[ca cb]|]; cbn [fst snd odec_text].
+      + rewrite HF1. reflexivity.
+      + rewrite HF2 by reflexivity. reflexivity.
+    - assert (E32 : 32 :: tl (flat (post_tail st ocom ofee)) = flat (post_tail st ocom ofee)) by (destruct st; reflexivity).
+      rewrite E32. exact HI. }
+  clear HI HC HF1 HF2.
+  destruct st; destruct ocom as [[ca cb]|], ofee as [[fa fb]|];
+  (match goal with
+   | |- context [post_doc ?b _ _] => seek_with g_post (T b)
+   end; apply find_hit; exact EV).
+Qed.
+End WithOpts.
+End POST.
